@@ -14,10 +14,10 @@ from . import build
 
 WORK = os.environ.get("VERIF_WORK", "/verif/work")
 
-ASAN_OPTS = ("abort_on_error=0:exitcode=86:detect_leaks=1:detect_stack_use_after_return=1:"
+ASAN_OPTS = ("abort_on_error=0:exitcode=86:detect_leaks=1:leak_check_at_exit=0:detect_stack_use_after_return=1:"
              "allocator_may_return_null=1:handle_abort=1:print_summary=1:malloc_context_size=12")
 UBSAN_OPTS = "print_stacktrace=1:halt_on_error=1:exitcode=87"
-LSAN_OPTS = "exitcode=0:print_suppressions=0"
+LSAN_OPTS = "print_suppressions=0"
 
 
 def hx(s):
